@@ -317,3 +317,14 @@ def is_field_of(v, base, name):
         b = dict(v, path=v['path'][:-1])
         return ckey(b) == ckey(base)
     return False
+
+
+def expand_closures(v, depth=0):
+    """Replace calls of local closures by their (beta-reduced) result, recursively."""
+    if isinstance(v, list):
+        return [expand_closures(x, depth) for x in v]
+    if not isinstance(v, dict) or depth > 40:
+        return v
+    if v.get('k') == 'call' and v.get('local_closure') and v.get('result') is not None:
+        return expand_closures(v['result'], depth + 1)
+    return {k2: (expand_closures(x, depth + 1) if isinstance(x, (dict, list)) else x) for k2, x in v.items()}
